@@ -120,13 +120,17 @@ JSON JSON::parse(StringReader& r, bool disable_extensions) {
       }
 
     } else { // decimal
+      // The integer part of a float may exceed the int64 range (but not the
+      // double range), so accumulate it separately.
       int_data = 0;
+      float_data = 0;
       while (!r.eof() && isdigit(r.get_s8(false))) {
-        int_data = int_data * 10 + (r.get_s8() - '0');
+        int8_t digit = r.get_s8() - '0';
+        int_data = int_data * 10 + digit;
+        float_data = float_data * 10 + digit;
       }
 
       double this_place = 0.1;
-      float_data = int_data;
       if (!r.eof() && r.get_s8(false) == '.') {
         is_int = false;
         r.get_s8();
